@@ -22,6 +22,9 @@ TYPES = ["Undefined", "StrictUndefined", "FalsyStrictUndefined", "StrictDefaultU
 DATA = {"p": {"k": "v", "l": ["i"], "i": 0}}
 
 
+PARTNER = {"p.q": "p.l[5]", "p.l[5]": "p.q", "m": "m.q", "m.q": "m", "p.k": "p.k"}
+
+
 def ref_src(r, kind):
     if r == "p":
         return "p.l" if kind in ("iterate", "tablerow", "join") else "p.i" if kind == "index" else "p.k"
@@ -45,6 +48,8 @@ def use_src(u):
         "join": f'{{{{ {R} | join: "," }}}}', "assign": f"{{% assign z = {R} %}}",
         "ternary": f'{{{{ "T" if {R} else "F" }}}}', "case": f"{{% case {R} %}}{{% when 1 %}}W{{% else %}}E{{% endcase %}}",
         "index": f"{{{{ p.l[{R}] }}}}", "arg": f'{{{{ "x" | append: {R} }}}}',
+        # two cycle tags that differ only in WHICH sub-path is missing; the missing item is not the one printed
+        "cyclearg": f"{{% cycle 'o', {R} %}}/{{% cycle 'o', {PARTNER.get(R, R)} %}}",
     }[k]
 
 
